@@ -39,7 +39,7 @@ TScenario ==
      /\ IF wellformed THEN TRUE ELSE PrintT(<<"TRUTH", Rec.id, ToJson([what |-> "scenario record malformed"])>>)
      /\ wellformed =>
         /\ sc' = s /\ out' = m
-        /\ IF P1(returnsNow, all) THEN TRUE
+        /\ IF P1(returnsNow, onsel) THEN TRUE
            ELSE PrintT(<<"VIOL", Rec.id, ToJson([prop |-> "P1", sc |-> sig, problems |-> all, truth_instant |-> Rec.truth_instant])>>)
         /\ IF P2(noSample, s, onsel) THEN TRUE
            ELSE PrintT(<<"VIOL", Rec.id, ToJson([prop |-> "P2", sc |-> sig, problems |-> all, truth_range_points |-> Rec.truth_range_points])>>)
